@@ -13,7 +13,10 @@ def statements(tier: str):
     # old-style body aggregates
     elems = ["p(X)", "p(X) : q(X)", "not p(X) : q(X)", "p(X) ; q(X)", "r(X,_)", "r(X,Y) : q(Y)", "X < 2 : p(X)",
              "#true : p(X)", "p(1..2)", "p(X) : q(X) ; p(X) : r(X,_)", "not not p(X) : q(X)", "#false : p(X)",
-             "not r(_,X) : q(X)", "p(X) : q(X), X > 0", "X = 1 : p(X) ; X = 1 : q(X)"]
+             "not r(_,X) : q(X)", "p(X) : q(X), X > 0", "X = 1 : p(X) ; X = 1 : q(X)",
+             # the same atom under different signs counts once per sign
+             "p(X) ; not not p(X)", "p(X) ; not p(X)", "not p(X) : q(X) ; not not p(X) : q(X)",
+             "p(X) : q(X) ; not not p(X) : q(X) ; not p(X) : q(X)"]
     for lb in ("", "1 ", "2 "):
         for ub in ("", " 1", " 2"):
             for el in elems:
